@@ -62,4 +62,7 @@ def run(ctx, rep):
     rep.run(RT.rule_parallel_results_aligned, ctx, rep, "G14")
     rep.require_min("G7", 2)
     rep.run(RF.rule_parent_walk_truthiness, ctx, rep, "G15")
+    # G16 / G17: small functions decided by evaluation on samples: members filed per kind in source order; namespace chain outermost first
+    rep.run(RT.rule_members_in_source_order, ctx, rep, "G16")
+    rep.run(RT.rule_namespace_chain_by_evaluation, ctx, rep, "G17")
     rep.run(RF.rule_locals_defined, ctx, rep, "U1", packages=("gtwrap/interface_parser",), min_functions=3)
